@@ -1,0 +1,99 @@
+//go:build verif
+
+package layers
+
+// Contracts of the ag9 sweep (property C07: every byte obtained from PrependBytes/AppendBytes is written before
+// `return nil`; the "written" marks are carried through loops and helpers with inited(s, lo, hi)).
+
+// ---- RADIUS: the attribute loop has written everything below pos ------------------------------------------------------
+// Every attribute starts at least two bytes before the total, and the total is small: the scalar facts SerializeTo needs
+// for `data[pos]`, `data[pos+1]` and for `copy(data[pos+2:], v.Value)` to be complete.
+//@ func (radius *RADIUS) Len() (int, error)
+//@   props C07
+//@   ensures result1 == nil ==> result0 <= 20 + 257*len(radius.Attributes)
+//@   ensures result1 == nil ==> forall k int :: 0 <= k && k < len(radius.Attributes) ==> radPre(radius.Attributes, k) + 2 <= radPre(radius.Attributes, len(radius.Attributes))
+//@   loop 0: invariant forall k int :: 0 <= k && k < (rangeindex+1) ==> radPre(radius.Attributes, k) + 2 <= radPre(radius.Attributes, (rangeindex+1))
+
+//@ func (radius *RADIUS) SerializeTo(b gopacket.SerializeBuffer, opts gopacket.SerializeOptions) error
+//@   props C07
+//@   loop 0: invariant 20 <= pos && pos <= plen && plen <= 300000000000
+//@   loop 0: invariant forall k int :: 0 <= k && k <= len(radius.Attributes) ==> radPre(radius.Attributes, k) <= plen - 20
+//@   loop 0: invariant forall k int :: 0 <= k && k < len(radius.Attributes) ==> radPre(radius.Attributes, k) + 2 <= plen - 20
+//@   loop 0: invariant inited(data, 0, pos)
+
+// ---- SCTP chunks: header, value, then the padding loop ---------------------------------------------------------------
+//@ func (sc SCTPData) SerializeTo(b gopacket.SerializeBuffer, opts gopacket.SerializeOptions) error
+//@   props C07
+//@   loop 0: invariant 16 + len(payload) <= i && inited(bytes, 0, i)
+
+//@ func (sc SCTPSack) SerializeTo(b gopacket.SerializeBuffer, opts gopacket.SerializeOptions) error
+//@   props C07
+//@   loop 0: invariant -1 <= rangeindex && rangeindex < len(sc.GapACKs) && inited(bytes, 0, 16 + 2*(rangeindex+1))
+//@   loop 1: invariant -1 <= rangeindex && rangeindex < len(sc.DuplicateTSNs) && inited(bytes, 0, offset + 4*(rangeindex+1))
+//@   loop 2: invariant length <= i && inited(bytes, 0, i)
+
+//@ func (sc SCTPCookieEcho) SerializeTo(b gopacket.SerializeBuffer, opts gopacket.SerializeOptions) error
+//@   props C07
+//@   loop 0: invariant length <= i && inited(bytes, 0, i)
+
+// The parameters are padded to a multiple of 4 one by one, so the chunk needs no padding of its own.
+//@ func (p SCTPParameter) Bytes() []byte
+//@   props C07
+//@   ensures len(result) % 4 == 0 && len(result) >= 4
+
+// resource bound (assumed entry precondition, reported in evidence):
+//@ func (sc SCTPInit) SerializeTo(b gopacket.SerializeBuffer, opts gopacket.SerializeOptions) error
+//@   props C07
+//@   requires forall i int :: 0 <= i && i < len(sc.Parameters) ==> len(sc.Parameters[i].Value) <= 1073741824
+//@   loop 0: invariant -1 <= rangeindex && rangeindex < len(sc.Parameters) && len(payload) % 4 == 0
+
+// resource bound (assumed entry precondition, reported in evidence):
+//@ func (sc SCTPError) SerializeTo(b gopacket.SerializeBuffer, opts gopacket.SerializeOptions) error
+//@   props C07
+//@   requires forall i int :: 0 <= i && i < len(sc.Parameters) ==> len(sc.Parameters[i].Value) <= 1073741824
+//@   loop 0: invariant -1 <= rangeindex && rangeindex < len(sc.Parameters) && len(payload) % 4 == 0
+
+// resource bound (assumed entry precondition, reported in evidence):
+//@ func (sc SCTPHeartbeat) SerializeTo(b gopacket.SerializeBuffer, opts gopacket.SerializeOptions) error
+//@   props C07
+//@   requires forall i int :: 0 <= i && i < len(sc.Parameters) ==> len(sc.Parameters[i].Value) <= 1073741824
+//@   loop 0: invariant -1 <= rangeindex && rangeindex < len(sc.Parameters) && len(payload) % 4 == 0
+
+// ---- ASF presence pong: the tail loop zeroes bytes 10..15 -----------------------------------------------------------
+//@ func (a *ASFPresencePong) SerializeTo(b gopacket.SerializeBuffer, _ gopacket.SerializeOptions) error
+//@   props C07
+//@   loop 0: invariant 10 <= i && inited(bytes, 10, i)
+
+// ---- DHCPv4: the whole window is zeroed before the fields are written -------------------------------------------------
+//@ func (d *DHCPv4) SerializeTo(b gopacket.SerializeBuffer, opts gopacket.SerializeOptions) error
+//@   props C07
+//@   loop 1: invariant -1 <= rangeindex && rangeindex < len(data)
+//@   loop 1: invariant inited(data, 0, rangeindex+1)
+
+// ---- Dot11 (after fix_1: header length computed from the frame type, address slots zeroed) ---------------------------
+//@ func (m Dot11) SerializeTo(b gopacket.SerializeBuffer, opts gopacket.SerializeOptions) error
+//@   props C07
+//@   loop 0: invariant 4 <= i && inited(buf, 4, i)
+
+// ---- Dot11MgmtReassociationReq (after fix_2: address slot zeroed) -----------------------------------------------------
+//@ func (m Dot11MgmtReassociationReq) SerializeTo(b gopacket.SerializeBuffer, opts gopacket.SerializeOptions) error
+//@   props C07
+//@   loop 0: invariant 4 <= i && inited(buf, 4, i)
+
+// ---- EAPOLKey (after fix_3: nonce, IV and MIC slots zeroed) -----------------------------------------------------------
+//@ func (ek *EAPOLKey) SerializeTo(b gopacket.SerializeBuffer, opts gopacket.SerializeOptions) error
+//@   props C07
+//@   loop 0: invariant 13 <= i && i <= 93 && inited(buf, 13, i)
+
+// ---- ARP: the four addresses are written one after the other ----------------------------------------------------------
+//@ func (arp *ARP) SerializeTo(b gopacket.SerializeBuffer, opts gopacket.SerializeOptions) error
+//@   props C07
+//@   loop 0: invariant -1 <= rangeindex && rangeindex < 4
+//@   loop 0: invariant start == 8 + (rangeindex >= 0 ? len(arp.SourceHwAddress) : 0) + (rangeindex >= 1 ? len(arp.SourceProtAddress) : 0) + (rangeindex >= 2 ? len(arp.DstHwAddress) : 0) + (rangeindex >= 3 ? len(arp.DstProtAddress) : 0)
+//@   loop 0: invariant inited(bytes, 0, start)
+
+// ---- DHCPv6: the whole window is zeroed first -------------------------------------------------------------------------
+//@ func (d *DHCPv6) SerializeTo(b gopacket.SerializeBuffer, opts gopacket.SerializeOptions) error
+//@   props C07
+//@   loop 0: invariant -1 <= rangeindex && rangeindex < len(data)
+//@   loop 0: invariant inited(data, 0, rangeindex+1)
